@@ -42,6 +42,7 @@ JOBQUEUE = {
             {"name": "random-jobsfirst", "args": ["jobqueue", "-mode", "random", "-seed", "{seed}", "-runs", "150", "-steps", "90", "-jobsfirst"]},
             {"name": "random-fifo", "args": ["jobqueue", "-mode", "random", "-seed", "{seed}", "-runs", "200", "-steps", "90", "-fifo"]},
             {"name": "random-statuslag", "args": ["jobqueue", "-mode", "random", "-seed", "{seed}", "-runs", "200", "-steps", "100", "-statuslag"]},
+            {"name": "random-watchbreak", "args": ["jobqueue", "-mode", "random", "-seed", "{seed}", "-runs", "150", "-steps", "100", "-watchbreak", "-jcsync"]},
         ],
         "thorough": [
             {"name": "random", "args": ["jobqueue", "-mode", "random", "-seed", "{seed}", "-runs", "3000", "-steps", "110"]},
@@ -50,6 +51,7 @@ JOBQUEUE = {
             {"name": "random-jobsfirst", "args": ["jobqueue", "-mode", "random", "-seed", "{seed}", "-runs", "1500", "-steps", "110", "-jobsfirst"]},
             {"name": "random-fifo", "args": ["jobqueue", "-mode", "random", "-seed", "{seed}", "-runs", "2000", "-steps", "110", "-fifo"]},
             {"name": "random-statuslag", "args": ["jobqueue", "-mode", "random", "-seed", "{seed}", "-runs", "2000", "-steps", "110", "-statuslag"]},
+            {"name": "random-watchbreak", "args": ["jobqueue", "-mode", "random", "-seed", "{seed}", "-runs", "1500", "-steps", "110", "-watchbreak", "-jcsync"]},
             {"name": "random-applied", "args": ["jobqueue", "-mode", "random", "-seed", "{seed}", "-runs", "1500", "-steps", "110", "-applied"]},
         ],
     },
